@@ -112,7 +112,11 @@ def run_case(case):
             if op[0] == "enter":
                 ovl[op[1]].__enter__()
             elif op[0] == "exit":
-                ovl[op[1]].__exit__(None, None, None)
+                if case.get("genexit") and mode in ("probe", "ovprobe"):
+                    # the block is left because the generator it sits in is closed (GeneratorExit is not an Exception)
+                    ovl[op[1]].__exit__(GeneratorExit, GeneratorExit(), None)
+                else:
+                    ovl[op[1]].__exit__(None, None, None)
                 if mode in ("probe", "ovprobe"):
                     ovl[op[1]].subscribe(lambda d, o=op[1]: late[o].append(1))
             elif op[0] == "new":
